@@ -134,12 +134,14 @@ CLAIMED.update({
         "F8 (garbage reply lost the appointment) fixed by 7001c0e, F9 (duplicate notification panicked with the state mutex held) fixed by 6ad5841; both replayed on the real binary (replay_tests/plugin_driver.py).",
    technique=VT, ref="DESIGN.md §4 C05, §6"),
  "C13": dict(
-   text="Narrowed to what single-call contracts decide: Retrier::run (terminates: decreases on the pending set; Ok implies nothing is pending; every request error is transient Unreachable i.e. back-off instead of a hot loop; "
-        "subscription / misbehaviour / abandonment errors are permanent exactly as RetryError::is_permanent says), send_to_retrier (fresh data goes to the retry manager unless the tower's retrier exists and is not running: "
-        "no data to an idle retrier), retry_tower (a manual retry is accepted exactly when the tower is known and its retrier is idle, or it has no retrier and is unreachable / subscription-error; it hands the retry manager "
-        "None resp. the stale pending set; otherwise nothing is sent), WTClient::set_tower_status (changes that tower's status only).",
-   note=PT + " NOT covered (outside single-call contracts): delivery within the configured delays (timing/liveness), `at no time two retry loops for one tower` and the RetryManager::manage_retry state machine "
-        "(tokio select loop, timers, spawned tasks, the backoff crate) - schedules and time. F10 (hot loop on garbage replies) fixed by 4b1ac74.",
+   text="Narrowed to what single-call contracts decide. Retrier::run: terminates (decreases on the pending set); Ok implies nothing is pending; every request error is transient Unreachable, i.e. back-off instead of a hot loop; "
+        "subscription / misbehaviour / abandonment errors are permanent exactly as RetryError::is_permanent says. Retrier::start (one whole retry cycle, the back-off loop summarised by a checked summary of `run`): the cycle never "
+        "leaves the retrier running; success => tower shown Reachable, retrier Stopped and delisted, nothing pending (on disk too if the retrier held all pending rows); giving up => tower Unreachable, retrier Idle and listed, data "
+        "retained; permanent failure => SubscriptionError, or Misbehaving together with the persisted proof. Retrier::{set_status, should_start, remove_if_failed}: the client's table of active retriers follows the status. "
+        "send_to_retrier: fresh data goes to the retry manager unless the tower's retrier exists and is not running (no data to an idle retrier). retry_tower: a manual retry is accepted exactly when the tower is known and its "
+        "retrier is idle, or it has no retrier and is unreachable / subscription-error, and hands over None resp. the stale pending set. WTClient::with_proxy: at start-up exactly the temporarily-unreachable towers are queued.",
+   note=PT + " NOT covered (outside single-call contracts): delivery within the configured delays (timing/liveness), `at no time two retry loops for one tower`, and RetryManager::manage_retry (tokio channel polling loop, timers, "
+        "spawned tasks). backoff::future::retry_notify is a trusted helper whose contract is the checked summary of one `run` attempt composed by a checked transitivity lemma. F10 (hot loop on garbage replies) fixed by 4b1ac74.",
    technique=VT, ref="DESIGN.md §4 C13, §6"),
 })
 
